@@ -62,11 +62,11 @@ Section Generic.
   Hypothesis Q_eph : forall m m' i s, sc_eph (cfg s) <> 0 -> Q m i s -> Q m' i s.
   Hypothesis Q_proc_sync : forall i m s min_ nw s',
     okm i m -> subscribed s m -> sc_eph (cfg s) = 0 ->
-    process_msg Repaired s (w_mid m) (mk_stored i m) (topic_of_wire (w_wtopic m)) (w_topics m) min_ = Some (nw, s') ->
+    process_msg Repaired s (w_mid m) (mk_stored i m) (heard_topic Repaired (sc_mode (cfg s)) (topic_of_wire (w_wtopic m))) (w_topics m) min_ = Some (nw, s') ->
     Q min_ i s -> Q (w_mid m) i s'.
   Hypothesis Q_proc_eph : forall i m s cur nw s',
     okm i m -> subscribed s m -> sc_eph (cfg s) <> 0 ->
-    process_msg Repaired s (w_mid m) (mk_stored i m) (topic_of_wire (w_wtopic m)) (w_topics m) (min_recv s) = Some (nw, s') ->
+    process_msg Repaired s (w_mid m) (mk_stored i m) (heard_topic Repaired (sc_mode (cfg s)) (topic_of_wire (w_wtopic m))) (w_topics m) (min_recv s) = Some (nw, s') ->
     Q cur i s -> Q cur i s'.
   Hypothesis Q_prune : forall i m cur s eph,
     okm i m -> (sc_eph (cfg s) = 0 -> cur = w_mid m) -> Q cur i s -> Q cur i (prune s eph (w_topics m)).
@@ -141,7 +141,7 @@ Section Generic.
     destruct eph.
     - assert (Hne : sc_eph (cfg s0) <> 0).
       { symmetry in Heph. apply negb_true_iff in Heph. apply Z.eqb_neq in Heph. exact Heph. }
-      destruct (process_msg Repaired (with_conn true s0) (w_mid m) (mk_stored i m) (topic_of_wire (w_wtopic m)) (w_topics m)
+      destruct (process_msg Repaired (with_conn true s0) (w_mid m) (mk_stored i m) (heard_topic Repaired (sc_mode (cfg s0)) (topic_of_wire (w_wtopic m))) (w_topics m)
                             (min_recv (with_conn true s0))) as [[nw s2]|] eqn:Ep.
       2:{ inversion E; subst; clear E. apply FR; reflexivity. }
       destruct (process_msg_frame _ _ _ _ _ _ _ _ _ (fun _ => True) Ep) as (Pc & _). cbn in Pc.
@@ -156,7 +156,7 @@ Section Generic.
         apply (Q_ext _ i s2); [reflexivity|reflexivity|exact Q2].
     - assert (Hsync : sc_eph (cfg s0) = 0).
       { symmetry in Heph. apply negb_false_iff in Heph. apply Z.eqb_eq in Heph. exact Heph. }
-      destruct (process_msg Repaired (with_conn true s0) (w_mid m) (mk_stored i m) (topic_of_wire (w_wtopic m)) (w_topics m)
+      destruct (process_msg Repaired (with_conn true s0) (w_mid m) (mk_stored i m) (heard_topic Repaired (sc_mode (cfg s0)) (topic_of_wire (w_wtopic m))) (w_topics m)
                             (f_min f1)) as [[nw s2]|] eqn:Ep.
       2:{ inversion E; subst; clear E. apply FR; reflexivity. }
       rewrite Hf1 in Ep.
